@@ -6,3 +6,4 @@ pub mod headers;
 pub mod modular;
 pub mod frame;
 pub mod model;
+pub mod icc;
